@@ -2,7 +2,7 @@
    Gen/FileManager.v of generator/file_manager.go.  This file holds statements only;
    every proof is [exact lemma] and is followed by Print Assumptions. *)
 From Coq Require Import List Arith Bool.
-From Verif Require Import Base.Bytes Gen.FileManager Gen.FileManagerFacts Gen.FileManagerTerm.
+From Verif Require Import Base.Bytes Gen.FileManager Gen.FileManagerFacts Gen.FileManagerTerm Corr.C12 Gen.FileManagerSpec.
 Import ListNotations.
 
 (* Every history of Feed calls (any number of calls, any items): the assembled output never
@@ -92,6 +92,18 @@ Theorem C12_text_outside_markers_unchanged :
   forall pairs s, no_key_anywhere pairs s -> replace pairs s = s.
 Proof. exact replace_no_key. Qed.
 Print Assumptions C12_text_outside_markers_unchanged.
+
+(* The declarative specification of WHICH submissions are kept and UNDER WHICH NAME — written
+   without index, count, alias or the rename walk (Corr/C12.v `bookkeeping`, the same function the
+   check evaluates on the real FileManager's output as a property oracle): walking the submitted
+   file items in order, an item (n, c) is dropped iff an earlier kept item has content c and was
+   submitted as n or ended up named n; otherwise it is the next output file, named n when no
+   earlier output has that name and in any case under a name no earlier output has; and there
+   are no other output files.  It holds of the model on EVERY history. *)
+Theorem C12_model_satisfies_bookkeeping :
+  forall h outs, run h = Ok outs -> bookkeeping (file_items h) outs [] = true.
+Proof. exact model_satisfies_bookkeeping. Qed.
+Print Assumptions C12_model_satisfies_bookkeeping.
 
 (* Termination: for every history the model never exhausts the fuel it gives to the rename walk
    (the Go `for {}` loop) or to the item loop — the walk over own siblings ends, and among the
